@@ -42,6 +42,8 @@ OPS = {
 for _f in ("sqrt", "exp", "log", "sin", "cos", "atan", "floor", "ceil", "abs"):
     for _an, _a in (("sum", "x * 2.5 + y"), ("diff", "x - k / 4"), ("neg", "-x * 0.5 + 2"), ("quot", "(x + 3) / (y + 2)"), ("diff2", "3.25 - x - y")):
         OPS[f"{_f}-of-{_an}"] = f"{_f}({_a})"
+OPS.update({"piecewise-repeated-value": "piecewise(x < 0.95, 3, x < 1.05, 2, 3)", "piecewise-4": "piecewise(x < 0.9, 1, x < 1.0, 2, x < 1.1, 1, 2)",
+            "piecewise-overlap": "piecewise(x < 1.05, y, x < 0.95, k, y)", "if-same-branches": "if(x > 1.0, k, k) + if(y < 0.5, x, y)"})
 OPS.update({"neg-of-sum": "-(x + y * 2)", "sub-of-sum": "k - (x + y)", "sub-of-diff": "k - (x - y)", "div-of-prod": "k / (x * 2 + 1) / (y + 1)", "pow-of-neg": "(-x) ^ 2 - x ^ 2 * 3",
             "pow-tower": "2 ^ 3 ^ 0.5 + (x ^ 2) ^ 1.5", "if-in-arith": "2 * if(x > 1.05, 1, 3) - if(y < 0.49, y, k) / 4", "cond-of-arith": "if(x * 2 - y > 1.55, x, y)"})
 CLASH = ["beta", "gamma", "E", "I", "S", "N", "Q", "zeta", "Symbol", "lambda", "pi", "oo", "nan", "im", "re", "sign", "Min", "alpha", "test", "var", "E1", "beta_", "x_", "time_", "t", "dt", "states", "values"]
@@ -104,6 +106,7 @@ def items(tier):
     src = os.path.dirname(os.environ.get("GOTRANX_SRC", "/repo/src"))
     for f in sorted(glob.glob(os.path.join(src, "tests/mmt_files/*.mmt")) + glob.glob(os.path.join(src, "tests/cellml_files/*.cellml"))):
         its.append({"key": f"corpus|{os.path.basename(f)}", "kind": "file", "path": f, "sample": {"file": f}})
+    its.append({"key": "reverse-units", "kind": "reverse-texts", "texts": [[k, t] for k, t in unit_texts()], "sample": {"key": "units|0", "text": unit_texts()[0][1]}})
     specs = [(k, s) for k, s in models.e3_specs("quick", variants=True) if "|n0|" in k and ("|split|" in k or k.endswith("|def|flat|-"))]
     specs = [(k, s) for k, s in specs if "split" in k] + [(k, s) for k, s in specs if "split" not in k][:60]
     for ch in E.chunks(specs, 10):
@@ -260,6 +263,14 @@ def reverse(key, ode, res, fail, ref_ns=None):
             if mu is None:
                 fail("export-unit-lost", f"{a.name}: unit {a.unit_str!r} lost in the myokit model")
                 return
+            try:
+                import myokit as _mk
+                want_u = _mk.parse_unit(a.unit_str.replace("**", "^"))
+            except Exception:
+                want_u = None
+            if want_u is not None and v.unit() != want_u:
+                fail("export-unit-changed", f"{a.name}: unit {a.unit_str!r} became {v.unit()} in the myokit model")
+                return
     for pt in perturbations(x0)[:40]:
         try:
             want = m.evaluate_derivatives(state=pt)
@@ -319,6 +330,16 @@ def run_item(item):
         if ode2 is not None:
             reverse(item["key"], ode2, res, fail)
         return res
+    if item["kind"] == "reverse-texts":
+        for key, text in item["texts"]:
+            res["states"] += 1
+            res["nontrivial"] += 1
+
+            def failt(cls, what, detail=None, _k=key, _t=text):
+                res["failures"].append({"finding": f"{ID}|{cls}|text-model|units", "what": f"{_k}: {what}", "size": len(_t), "detail": dict(detail or {}, text=_t),
+                                        "replay_item": {"key": "reverse-units|" + _k, "kind": "reverse-texts", "texts": [[_k, _t]]}})
+            reverse(key, drive.load(text), res, failt)
+        return res
     for key, sp in item["specs"]:
         res["states"] += 1
         text = models.spec_text(sp)
@@ -330,3 +351,13 @@ def run_item(item):
         reverse(key, ode, res, fail)
         res["nontrivial"] += 1
     return res
+
+
+def unit_texts():
+    """text models whose states / parameters carry units while the derivative lines carry other units or none (export direction)"""
+    out = []
+    for i, (su, du) in enumerate((("mV", "mV/ms"), ("mM", None), ("mV", "A/F"), ("1", "1/ms"), ("uA/cm**2", "mV"))):
+        tail = f" # {du}" if du else ""
+        out.append((f"units|{i}", f'parameters("m", g=ScalarParam(2.0, unit="mS/uF"))\nstates("m", V=ScalarParam(-80.0, unit="{su}"), n=ScalarParam(0.3, unit="1"))\nexpressions("m")\n'
+                    f'dV_dt = -g*(V + 60)*n{tail}\ndn_dt = (0.5 - n)/10{tail}\n'))
+    return out
